@@ -10,7 +10,7 @@ from bibtexparser.middlewares.names import (
 )
 from bibtexparser.model import Entry, Field, MiddlewareErrorBlock
 
-from .. import harness, refnames, tokens
+from .. import harness, libgen, refnames, tokens
 
 PROP = "C13"
 MODNAME = __name__
@@ -84,6 +84,14 @@ def o_parse(name):
         return (None, nontrivial, cls)
     if parts != exp:
         return (("partition:form%d" % len(sections), repr(parts), repr(exp)), nontrivial, cls)
+    # history independence: the result belongs to the caller; altering it must not influence a later call
+    snapshot = {k: list(v) for k, v in parts.items()}
+    for lst in (got.first, got.von, got.last, got.jr):
+        lst.append("<altered by caller>")
+    again = parse_single_name_into_parts(name, strict=True)
+    parts2 = dict(first=again.first, von=again.von, last=again.last, jr=again.jr)
+    if again is got or parts2 != snapshot:
+        return (("result-shared-between-calls", repr(parts2), repr(snapshot)), nontrivial, cls)
     return (None, nontrivial, cls)
 
 
@@ -93,7 +101,7 @@ def o_middleware(inp):
     fields.append(Field("title", "{T}", 99))
     entry = Entry("article", "k", fields, start_line=3, raw="@article{k,...}")
     lib = Library([entry])
-    out = SplitNameParts(allow_inplace_modification=inp["inplace"]).transform(lib)
+    out = libgen.maybe_preuse(SplitNameParts(allow_inplace_modification=inp["inplace"]), inp["fields"]).transform(lib)
     name_fields = ("author", "editor", "translator")
     invalid_in = None
     for k, v in inp["fields"]:
